@@ -976,17 +976,39 @@ type strSrc struct {
 }
 
 func (x *Exec) bytesToString(st *State, v *Val, fs *types.Slice, to types.Type) *Val {
+	return x.bytesToStringIn(st, v, fs, to, nil)
+}
+
+// bytesToStringIn converts with the byte contents taken from heap view h (nil: the current heap).
+func (x *Exec) bytesToStringIn(st *State, v *Val, fs *types.Slice, to types.Type, h *HeapSnap) *Val {
+	key := "E|" + typeKey(fs.Elem()) + "|"
+	var harr *Term
+	if h != nil {
+		harr = x.heapIn(st, *h, key, SInt)
+	} else {
+		harr = x.heapGet(st, key, SInt)
+	}
+	inner := Select(harr, v.Arr)
 	if src, ok := st.strSrc[v.Arr.s]; ok && x.inQuant == 0 {
-		cur := Select(x.heapGet(st, "E|"+typeKey(fs.Elem())+"|", SInt), v.Arr)
-		if cur.s == src.inner.s || x.sess.CheckWith(Not(app(SBool, "=", cur, src.inner))) == Unsat {
+		if inner.s == src.inner.s || x.sess.CheckWith(Not(app(SBool, "=", inner, src.inner))) == Unsat {
 			return scalar(x.bind(st, StrSubstr(src.s, v.Off, v.Len), "b2s"), to)
 		}
 	}
+	// the same bytes (same array term, offset and length) convert to the same string term, so
+	// that a specification can name the string the code computed
+	ck := ""
+	if x.inQuant == 0 {
+		ck = "b2s:" + v.Arr.s + "|" + v.Off.s + "|" + v.Len.s + "|" + inner.s
+		if c, ok := st.ghost[ck]; ok && c.sort == SStr {
+			return scalar(c, to)
+		}
+	}
 	s := x.freshConst(st, "b2s", SStr)
+	if ck != "" {
+		st.ghost[ck] = s
+	}
 	x.assumeStr(st, s)
 	x.assume(st, Eq(StrLen(s), v.Len), "bytes->string len")
-	key := "E|" + typeKey(fs.Elem()) + "|"
-	inner := Select(x.heapGet(st, key, SInt), v.Arr)
 	i := Var("i!b2s", SInt)
 	body := Implies(And(Le(IntLit(0), i), Lt(i, v.Len)), app(SBool, "=", app(SInt, "str.to_code", app(SStr, "str.at", s, i)), Select(inner, Add(v.Off, i))))
 	x.assume(st, Forall([][2]string{{"i!b2s", SInt}}, body, []*Term{app(SStr, "str.at", s, i)}), "bytes->string")
